@@ -2,7 +2,7 @@
    Statements only (copied from the lemma libraries); every proof is a bare
    `exact`; see the cited files in coq/proofs for the proofs. *)
 From Coq Require Import List NArith ZArith Bool Arith Sorting.Sorted Sorting.Permutation.
-From D2P Require Import Str Err Xml TableTypes Tables Fmt Bullets Merge Collector Walk Paths Package Content ShapeFacts TokFacts FrameFacts BulletsFacts OptionFacts.
+From D2P Require Import Str Err Xml TableTypes Tables Fmt Bullets Merge Collector Walk Paths Package Content ShapeFacts TokFacts FrameFacts BulletsFacts OptionFacts Fmt Bullets Collector Walk ShapeFacts TokFacts FrameFacts MarkerFacts ReplaceFacts StandIns.
 Import ListNotations.
 
 (* every entry of images is the base name of an image relationship target mapped to the payload of the member that relationship resolves to *)
@@ -41,3 +41,86 @@ Theorem C11_names_distinct :
   forall a r, images a = Ok r -> NoDup (map fst r).
 Proof. exact images_keys_distinct. Qed.
 Print Assumptions C11_names_distinct.
+
+(* REFERENCED IN PLACE: a picture whose r:embed resolves contributes, at its place in the paragraph, the marker ----TARGET---- naming the relationship target *)
+Theorem C11_picture_in_place :
+  forall v path e ks rid target, e_ptag e = tag_IMAGE ->
+  forallb plain_inline ks = true ->
+  attr_r_req e s_embed = Ok rid -> dict_get rid (env_rels v) = Some target ->
+  emit v path (AE e ks)
+  = (k <- emit_kids v path ks 0%nat ;; Ok (raw (s_dashes ++ target ++ s_dashes) ++ k)).
+Proof. exact emit_image. Qed.
+Print Assumptions C11_picture_in_place.
+
+(* the same for VML pictures (v:imagedata r:id) *)
+Theorem C11_vml_picture_in_place :
+  forall v path e ks rid target, e_ptag e = tag_IMAGEDATA ->
+  forallb plain_inline ks = true ->
+  attr_r_req e s_id = Ok rid -> dict_get rid (env_rels v) = Some target ->
+  emit v path (AE e ks)
+  = (k <- emit_kids v path ks 0%nat ;; Ok (raw (s_dashes ++ target ++ s_dashes) ++ k)).
+Proof. exact emit_imagedata. Qed.
+Print Assumptions C11_vml_picture_in_place.
+
+(* a picture whose relationship cannot be resolved (no attribute, r unbound, dangling id) is skipped without error *)
+Theorem C11_unresolved_picture_skipped :
+  forall v path e ks, e_ptag e = tag_IMAGE ->
+  forallb plain_inline ks = true ->
+  (attr_r_req e s_embed = Err KeyError
+   \/ exists rid, attr_r_req e s_embed = Ok rid /\ dict_get rid (env_rels v) = None) ->
+  emit v path (AE e ks) = emit_kids v path ks 0%nat.
+Proof. exact emit_image_unresolved. Qed.
+Print Assumptions C11_unresolved_picture_skipped.
+
+(* the picture handler itself never raises *)
+Theorem C11_picture_cannot_raise :
+  forall v path e ks x, e_ptag e = tag_IMAGE ->
+  forallb plain_inline ks = true ->
+  emit v path (AE e ks) = Err x -> emit_kids v path ks 0%nat = Err x.
+Proof. exact emit_image_only_kids_fail. Qed.
+Print Assumptions C11_picture_cannot_raise.
+
+(* the alt-text marker ----Image alt text---->DESCRIPTION< (description escaped under html) *)
+Theorem C11_alt_text_marker :
+  forall v path e ks d, e_ptag e = tag_IMAGE_ALT ->
+  forallb plain_inline ks = true -> attr_plain e s_descr = Some d ->
+  emit v path (AE e ks)
+  = (k <- emit_kids v path ks 0%nat ;;
+     Ok ((raw s_alt_prefix ++ map TTxt d ++ [TRaw 60]) ++ k)).
+Proof. exact emit_image_alt. Qed.
+Print Assumptions C11_alt_text_marker.
+
+(* in a drawing (any inert siblings at every level) the alt-text marker precedes the picture marker *)
+Theorem C11_alt_text_precedes_picture :
+  forall v path
+    drawing inline docPr graphic graphicData pic blipFill blip
+    d0 d1 i0 i1 i2 g0 g1 gd0 gd1 p0 p1 bf0 bf1 dk bk d rid target,
+  foreign_tag (e_ptag drawing) = true -> foreign_tag (e_ptag inline) = true ->
+  foreign_tag (e_ptag graphic) = true -> foreign_tag (e_ptag graphicData) = true ->
+  foreign_tag (e_ptag pic) = true -> foreign_tag (e_ptag blipFill) = true ->
+  e_ptag docPr = tag_IMAGE_ALT -> attr_plain docPr s_descr = Some d ->
+  e_ptag blip = tag_IMAGE -> attr_r_req blip s_embed = Ok rid ->
+  dict_get rid (env_rels v) = Some target ->
+  forallb (forallb inert) [d0; d1; i0; i1; i2; g0; g1; gd0; gd1; p0; p1; bf0; bf1; dk; bk] = true ->
+  emit v path
+    (AE drawing
+       (d0 ++ AE inline
+                (i0 ++ AE docPr dk
+                 :: i1 ++ AE graphic
+                            (g0 ++ AE graphicData
+                                     (gd0 ++ AE pic
+                                               (p0 ++ AE blipFill (bf0 ++ AE blip bk :: bf1) :: p1)
+                                      :: gd1)
+                             :: g1)
+                 :: i2)
+        :: d1))
+  = Ok ((raw s_alt_prefix ++ map TTxt d ++ [TRaw 60]) ++ raw (s_dashes ++ target ++ s_dashes)).
+Proof. exact drawing_alt_then_image. Qed.
+Print Assumptions C11_alt_text_precedes_picture.
+
+(* rendered identically with html on and off *)
+Theorem C11_marker_rendering :
+  forall html target,
+  render html (image_marker target) = [45;45;45;45] ++ target ++ [45;45;45;45].
+Proof. exact image_marker_render. Qed.
+Print Assumptions C11_marker_rendering.
